@@ -1107,7 +1107,7 @@ def replace_dict_values(name: str,
     """
     new_dict = {}
     for n, v in dictionary.items():
-        if isinstance(v, np.ndarray):
+        if isinstance(v, np.ndarray) and v.ndim == 1 and v.size > 0:
             v = "[{0}]".format(get_mixed_range_representation(
                 v, filename_mode))
         new_dict[n] = v
